@@ -99,6 +99,9 @@ RULE = ("catalog forecasts of 1..30 synthetic catalogs (each empty with a per-ca
         "the observed catalog object], [the observed catalog changed in place by the caller], remaining tests, repeated "
         "tests, closing number test; cached expected rates compared after every test; forecasts carrying filters with "
         "apply_filters=True; one case per run with more than 65535 events in one cell / bin / catalog; "
+        "call forms: options by keyword / every argument by position / every argument by keyword; after every test the "
+        "returned test distribution and the arrays read from expected_rates are overwritten in place by the caller, the "
+        "observed catalog and the synthetic catalogs must be bit for bit unmodified; "
         "non-trivial = at least one test returned status normal/undersampled with a non-empty distribution; distinct by "
         "(region sizes, all count matrices, mode)")
 
@@ -322,6 +325,9 @@ def gen_case(rng, tier):
         case["noisy_edges"] = True
     if rng.random() < 0.25:
         case["obs_region"] = "copy"
+    # how the arguments are handed over: keywords for the options (as the documentation shows), everything by position,
+    # everything by keyword (the signatures are part of the public API)
+    case["call_form"] = rng.choice(["kw", "kw", "kw", "positional", "positional", "kw-all"])
     # default arguments of the tests: verbose=True (progress lines of N / S / M / PL) and seed=None (the resampled tests
     # then continue the global numpy stream, which the harness seeds itself with `seed` right before the call)
     case["verbose"] = rng.random() < 0.25
@@ -680,6 +686,29 @@ def canon_result(r):
     return dict(status=r.status, observed=obs, quantile=qq, dist=[float(x) for x in r.test_distribution])
 
 
+def spoil(a):
+    """what a caller may do to an array / list a public call handed him: overwrite it in place (same length)"""
+    try:
+        if isinstance(a, numpy.ndarray):
+            if a.flags.writeable and a.size:
+                with numpy.errstate(all="ignore"):
+                    a *= -3
+                    a += 1
+        elif isinstance(a, list):
+            for i in range(len(a)):
+                a[i] = -7.0
+    except Exception:
+        pass
+
+
+def catalog_bytes(c):
+    """the events of a catalog, bit for bit"""
+    try:
+        return (int(c.event_count), c.catalog.tobytes())
+    except Exception:
+        return None
+
+
 def read_rates(fc):
     """the forecast's cached mean gridded rates as plain numbers (None when not computed or when the forecast has no
     `expected_rates` attribute any more: where the rates are kept is incidental); never raises"""
@@ -687,8 +716,11 @@ def read_rates(fc):
         er = getattr(fc, "expected_rates", None)
         if er is None:
             return None
-        return dict(spatial=[float(x) for x in er.spatial_counts()], mag=[float(x) for x in er.magnitude_counts()],
-                    total=float(er.sum()), n_cat=fc.n_cat)
+        sp, mg = er.spatial_counts(), er.magnitude_counts()
+        res = dict(spatial=[float(x) for x in sp], mag=[float(x) for x in mg], total=float(er.sum()), n_cat=fc.n_cat)
+        spoil(sp)
+        spoil(mg)         # the arrays a caller is handed are his: the next read must not see what he did to them
+        return res
     except Exception as e:
         return dict(error=f"{type(e).__name__}: {e}"[:160])
 
@@ -712,31 +744,62 @@ def run_tests(case, fc, obs, tests, fresh):
         skw = dict(seed=case["seed"]) if case.get("seed_arg", True) else {}
         if not skw:
             numpy.random.seed(case["seed"])
+        form = case.get("call_form", "kw")
+        seed = case["seed"]
+        side = draws.setdefault("_side", [])
+        obs_before = catalog_bytes(obs)
+        cats = getattr(fc, "catalogs", None)
+        sims_before = [catalog_bytes(c) for c in cats] if isinstance(cats, list) and not case.get("fc_filter") else None
         try:
             with quiet(), record_choice(rec):
-                if t == "n":
+                if form == "positional":
+                    # every argument by position, in the order of the signatures
+                    pos = {"n": (ce.number_test, (vb,)), "s": (ce.spatial_test, (vb,)), "m": (ce.magnitude_test, (vb,)),
+                           "pl": (ce.pseudolikelihood_test, (vb,)),
+                           "rm": (ce.resampled_magnitude_test, (vb, seed) if skw else (vb,)),
+                           "mll": (ce.MLL_magnitude_test, (False, vb, seed) if skw else (False, vb)),
+                           "mllfull": (ce.MLL_magnitude_test, (True, vb, seed) if skw else (True, vb))}[t]
+                    r = pos[0](fc, obs, *pos[1])
+                elif form == "kw-all":
+                    kwf = {"n": ce.number_test, "s": ce.spatial_test, "m": ce.magnitude_test, "pl": ce.pseudolikelihood_test,
+                           "rm": ce.resampled_magnitude_test, "mll": ce.MLL_magnitude_test, "mllfull": ce.MLL_magnitude_test}[t]
+                    kws = dict(forecast=fc, observed_catalog=obs, verbose=vb)
+                    if t in ("rm", "mll", "mllfull"):
+                        kws.update(skw)
+                    if t in ("mll", "mllfull"):
+                        kws["full_calculation"] = (t == "mllfull")
+                    r = kwf(**kws)
+                elif t == "n":
                     r = ce.number_test(fc, obs, verbose=vb)
+                elif t == "s":
+                    r = ce.spatial_test(fc, obs, verbose=vb)
+                elif t == "m":
+                    r = ce.magnitude_test(fc, obs, verbose=vb)
+                elif t == "pl":
+                    r = ce.pseudolikelihood_test(fc, obs, verbose=vb)
+                elif t == "rm":
+                    r = ce.resampled_magnitude_test(fc, obs, verbose=vb, **skw)
+                elif t == "mll":
+                    r = ce.MLL_magnitude_test(fc, obs, verbose=vb, **skw)
+                else:
+                    r = ce.MLL_magnitude_test(fc, obs, full_calculation=True, verbose=vb, **skw)
+                if t == "n":
                     res = dict(status=r.status, observed=int(r.observed_statistic),
                                quantile=[float(r.quantile[0]), float(r.quantile[1])],
                                dist=[int(x) for x in r.test_distribution])
-                elif t == "s":
-                    r = ce.spatial_test(fc, obs, verbose=vb)
-                    res = canon_result(r)
-                elif t == "m":
-                    r = ce.magnitude_test(fc, obs, verbose=vb)
-                    res = canon_result(r)
-                elif t == "pl":
-                    r = ce.pseudolikelihood_test(fc, obs, verbose=vb)
-                    res = canon_result(r)
-                elif t == "rm":
-                    r = ce.resampled_magnitude_test(fc, obs, verbose=vb, **skw)
-                    res = canon_result(r)
-                elif t == "mll":
-                    r = ce.MLL_magnitude_test(fc, obs, verbose=vb, **skw)
-                    res = canon_result(r)
                 else:
-                    r = ce.MLL_magnitude_test(fc, obs, full_calculation=True, verbose=vb, **skw)
                     res = canon_result(r)
+            # (1) what a result hands out belongs to the caller: he overwrites the test distribution in place (the
+            #     canonical copy above is what is judged); no later result on this forecast may change
+            if r is not None:
+                spoil(getattr(r, "test_distribution", None))
+            # (2) the caller's own objects are bit for bit what they were: observed catalog and synthetic catalogs
+            if obs_before is not None and catalog_bytes(obs) != obs_before:
+                side.append(f"{t}: the test modified the observed catalog the caller handed in")
+            cats2 = getattr(fc, "catalogs", None)
+            if sims_before is not None and isinstance(cats2, list) and len(cats2) == len(sims_before) and \
+                    [catalog_bytes(c) for c in cats2] != sims_before:
+                side.append(f"{t}: the test modified the events of the forecast's synthetic catalogs")
             raw[t] = r
             out[t] = res
         except Exception as e:
@@ -1424,6 +1487,7 @@ def check_case(run, drv, pending, case):
     run.count("mode:" + case["mode"])
     if case.get("obs_region"):
         run.count("obs-region:equal-copy")
+    run.count("call-form:" + case.get("call_form", "kw"))
     if case.get("noisy_edges"):
         run.count("noisy-magnitude-edges")
     if case.get("fc_filter"):
@@ -1485,7 +1549,7 @@ def check_case(run, drv, pending, case):
                             msgs.append(f"after {t}: " + m)
         except Exception as e:      # an output of an unexpected type / shape: a deviation, not a harness crash
             msgs = [f"outputs cannot be interpreted: {type(e).__name__}: {e}"]
-        for msg in msgs:
+        for msg in msgs + list(sg["draws"].get("_side", [])):
             run.oracle_failure(slim, where + msg)
         if other is not None and k < len(other):
             for t in out:
